@@ -1,7 +1,7 @@
 """C12 (in part) - boundary rings under every option combination: the SHAPE conjuncts only.
 
 Decided, for every cell of every resolution 0..29 (face, segment, position symbolic) and the option combinations
-closed_ring in {True, False, omitted} x segments in {omitted, None, 'auto', 1, 2, 3, 5, 7, 16}:
+closed_ring in {True, False, omitted} x segments in {omitted, None, 'auto', 1, 2, 3, 5, 6, 7, 10, 16} (more in the thorough tier):
   * len(cell_to_boundary(c, options)) = (3 at resolution 1, else 5) * segments + (1 if closed_ring else 0), where for
     omitted / None / 'auto' `segments` is the integer >= 1 the code derives from the resolution alone;
   * with closed_ring the last vertex IS the first vertex; closed_ring defaults to true;
@@ -108,7 +108,8 @@ def t_world(repo, specs):
     return fn
 
 
-SEGMENTS = ("omitted", None, "auto", 1, 2, 3, 5, 7, 16)
+SEGMENTS = ("omitted", None, "auto", 1, 2, 3, 5, 6, 7, 10, 16)
+SEGMENTS_THOROUGH = SEGMENTS + (4, 8, 9, 11, 12, 13, 14, 15, 17, 19, 32, 64)
 CLOSED = ("omitted", True, False)
 
 
@@ -122,7 +123,9 @@ def tasks(tier):
     levels = range(0, 30) if tier == "thorough" else (0, 1, 2, 3, 5, 6, 7, 12, 29)
     for r in levels:
         for c in CLOSED:
-            for sg in SEGMENTS:
+            for sg in (SEGMENTS_THOROUGH if tier == "thorough" else SEGMENTS):
+                if tier == "thorough" and sg in SEGMENTS_THOROUGH[len(SEGMENTS):] and r not in (0, 1, 2, 7, 29):
+                    continue
                 if tier == "quick" and r > 7 and sg not in ("omitted", "auto", 3):
                     continue
                 out.append(PTask("C12/boundary[r=%d,closed_ring=%s,segments=%s]" % (r, c, sg), t_boundary(repo, specs, r, c, sg), [BOUNDARY],
@@ -134,7 +137,7 @@ ASSUMPTIONS = BASE_TRUSTED + [
     "float mode 'opaque': every float is an unknown value; float comparisons are non-deterministic; loops steered by floats are havocked and left (termination not proved); integer results of floats (floor, round) are outside the subset",
     "DodecahedronProjection.inverse is replaced by an opaque result: it cannot influence list lengths; that it returns at all is float geometry and not claimed",
     "_get_pentagon is used through its vertex-count contract, proved per resolution (tasks _get_pentagon[r=..])",
-    "explicit `segments` values are the finite set {1,2,3,5,7,16}; other integers are not claimed",
+    "explicit `segments` values are the finite set {1,2,3,5,6,7,10,16} (thorough: also 4,8,9,11..15,17,19,32,64 at resolutions 0,1,2,7,29); other integers are not claimed",
 ]
 
 
